@@ -46,6 +46,11 @@ CHECKS = {
    "The lifecycle model shows which design has the Released/Bounded properties; the real process is then measured: after 1, 5, 25 (100, 400) sequential and concurrent calls of SinglePipelineSimulate / Fitness_default / the assembler, the number of live goroutines (grouped by creating function) must stay within a constant of the number before the first call, which a leak per call cannot satisfy whatever the release mechanism is.",
    "Bound: 3 goroutines above the pre-series count after a settle period (GC + yields). The assembler's requirement-server leak is a recorded known finding. Trusted: runtime.Stack profile parsing.",
    "DESIGN.md §4 C17", "bmverif"),
+ "C12": ("model_checking",
+   "TLA+ spec BondgoSync (visitor / Var_assigner / Usage_Monitor over unbuffered channels) model-checked by TLC for deadlock freedom, termination under fairness, NotifiedBeforeExit and SameRequirements; the real compiler (verif build) run under schedules forced by delays at every hook point, hook logs and process outcomes trace-validated by TLC; TLA+ reference semantics GoSubset simulated by TLC to build programs with expected output streams, compiled by the real bondgo, simulated by the real VM and compared",
+   "The protocol model explores every interleaving of the compiler's three goroutines and singles out the schedule that deadlocks a given ordering of the assigner's answer/notify pair; the real compiler is then driven into exactly those schedules (and the others reachable by delaying each synchronisation point), must terminate in all of them and must emit identical artefacts. Independently, programs drawn from the reference semantics are compiled and executed and their output streams must equal the specification's.",
+   "Semantic half: straight-line programs over three register variables, + and *, ++/--, constants incl. wrap-around, two outputs, if/else on ==, rsize 8 and 16 (goroutines/channels/functions/loops are not generated); == is a recorded known finding (je stub). Concurrency half: delays of 4-40 ms at 5 hook points, singly and in pairs, on programs whose last request is a variable request. Trusted: TLC, the pretty-printer from the spec's AST to Go source, r2o-retire detection in the simulator.",
+   "DESIGN.md §4 C12", "bmverif"),
 }
 NOT_APPLICABLE = {
  "C18": "static well-formedness of generated Verilog text (parse/lint judgement): no state, transitions or behaviour for a TLA+ specification to decide; see DESIGN.md §5",
